@@ -320,7 +320,9 @@ def chains(emitted):
     for key, m in mods.items():
         if len(m) != 5:
             raise tlc.TlcError(f"incomplete modulator chain emitted for {key}: {sorted(m)}")
-        out.append({"mod": m, "rcv": [d for _, d in sorted(rcvs.get(key, {}).items())]})
+        # loopback first, then the channels in a fixed order
+        out.append({"mod": m, "rcv": [d for _, d in sorted(rcvs.get(key, {}).items(),
+                                                            key=lambda kv: (bool(kv[1]["rx"]["ch"]["taps"]), kv[0]))]})
     return out, stars
 
 
@@ -407,42 +409,55 @@ def cost(c):
     return (N + cp) * (2 * u + 1) * max(N, 4)
 
 
-def split(configs, parts):
+def split(configs, parts, costfn=cost):
     """disjoint partitions of roughly equal cost"""
     bins = [[] for _ in range(max(1, min(parts, len(configs))))]
     load = [0] * len(bins)
-    for c in sorted(configs, key=cost, reverse=True):
+    for c in sorted(configs, key=costfn, reverse=True):
         i = load.index(min(load))
         bins[i].append(c)
-        load[i] += cost(c)
+        load[i] += costfn(c)
     return [b for b in bins if b]
+
+
+def cost_basis(c):      # one chain per unit tap: 2 (cp + 1) + 3 layouts
+    return cost(c) * (2 * c[1] + 5)
+
+
+def cost_all3(c):       # one chain per delay subset of size <= 3
+    m = c[1] + 1
+    return cost(c) * (m + m * (m - 1) // 2 + m * (m - 1) * (m - 2) // 6 + 3)
 
 
 def plan(tier, seed):
     jobs = []
 
-    def add(label, configs, parts, weight=1.0, **kw):
-        for i, p in enumerate(split(configs, parts)):
-            jobs.append({"label": f"{label}/{i}", "w": weight * sum(cost(c) for c in p),
+    def add(label, configs, parts, weight=1.0, costfn=cost, **kw):
+        for i, p in enumerate(split(configs, parts, costfn)):
+            jobs.append({"label": f"{label}/{i}", "w": weight * sum(costfn(c) for c in p),
                          "model": dict(configs=p, seed=seed, **kw)})
     pow2 = configs_of([2, 4, 8])
     np2 = (configs_of([6]) + configs_of([12], cps=lambda N: [0, 1, 5, 12], us=lambda N: [2, 6, 10, 12])
            + configs_of([60], cps=lambda N: [0, 7, 60], us=lambda N: [2, 52, 60]))
-    jobs.append({"label": "stars", "w": 1e9, "model": dict(mapffts=list(range(2, 65)), paramffts=[2, 3, 4, 6, 8], seed=seed)})
+    jobs.append({"label": "stars", "w": 1e12, "model": dict(mapffts=list(range(2, 65)), paramffts=[2, 3, 4, 6, 8], seed=seed)})
     if tier == "quick":
-        # every length and the complete unit basis of the data, three layouts (one of full memory)
-        add("data-sweep", pow2, 10, 3.0, lenmode="all", patmode="basis", ndense=1, laymode="three", block=False)
+        # every length and the complete unit basis of the data, loopback and the full-memory two-tap layout
+        add("data-sweep", pow2, 6, 2.0, lenmode="all", patmode="basis", ndense=1, laymode="one", block=False)
         # the complete unit basis of the taps (+ the three layouts), static and block-static, two lengths
-        add("tap-sweep", pow2, 5, 4.0, lenmode="two", patmode="dense", ndense=1, laymode="basis", block=True)
-        add("non-pow2", np2, 3, 1.0, lenmode="two", patmode="dense", ndense=1, laymode="three", block=True)
+        add("tap-sweep", pow2, 4, 1.0, cost_basis, lenmode="two", patmode="dense", ndense=1, laymode="basis", block=True)
+        add("non-pow2", np2, 1, 1e6, lenmode="two", patmode="dense", ndense=1, laymode="three", block=True)
     else:
         p16 = configs_of([16])
-        add("data-sweep16", p16, 24, 3.0, lenmode="all", patmode="basis", ndense=1, laymode="three", block=False)
-        add("layouts16", p16, 40, 40.0, lenmode="two", patmode="dense", ndense=1, laymode="all3", block=False)
-        add("block16", p16, 8, 3.0, lenmode="three", patmode="dense", ndense=2, laymode="basis", block=True)
-        add("full8", pow2, 24, 30.0, lenmode="all", patmode="basis", ndense=2, laymode="all3", block=True)
-        np2t = np2 + configs_of([12]) + configs_of([10, 15, 24], cps=lambda N: [0, 1, N // 2, N], us=lambda N: [2, N // 2 // 2 * 2, N - N % 2])
-        add("non-pow2", sorted(set(np2t)), 12, 1.0, lenmode="three", patmode="dense", ndense=2, laymode="three", block=True)
+        # fft 16: every length, complete data basis; every tap layout of <= 3 taps; complete tap basis, block-static
+        add("data-sweep16", p16, 12, 6.0, lenmode="all", patmode="basis", ndense=1, laymode="one", block=False)
+        add("layouts16", p16, 16, 1.0, cost_all3, lenmode="one", patmode="dense", ndense=1, laymode="all3", block=False)
+        add("tap-sweep16", p16, 6, 2.0, cost_basis, lenmode="two", patmode="dense", ndense=1, laymode="basis", block=True)
+        # fft <= 8: the complete product (data basis x all lengths) x (tap basis) x {static, block-static}; all layouts
+        add("product8", pow2, 14, 3.0, cost_basis, lenmode="all", patmode="basis", ndense=1, laymode="basis", block=True)
+        add("layouts8", pow2, 6, 2.0, cost_all3, lenmode="two", patmode="dense", ndense=2, laymode="all3", block=True)
+        np2t = np2 + configs_of([12]) + configs_of([10, 15, 24], cps=lambda N: [0, 1, N // 2, N],
+                                                    us=lambda N: [2, N // 2 // 2 * 2, N - N % 2])
+        add("non-pow2", sorted(set(np2t)), 3, 1e3, lenmode="three", patmode="dense", ndense=2, laymode="three", block=True)
     jobs.sort(key=lambda j: -j["w"])
     return jobs
 
@@ -468,7 +483,7 @@ def run(ctx):
     devs = [(dev, sorted(cfgs), allowed) for dev, (cfgs, allowed) in DEV_REFUTED_BY.items()]
     todo = [("dev", j) for j in devs] + [("part", j) for j in jobs]
     todo.sort(key=lambda t: 0 if t[0] == "part" else 1)
-    results = pool_map(_dispatch, todo, procs=min(16, os.cpu_count() or 1))
+    results = pool_map(_dispatch, todo)
     nchains = 0
     for (kind, _), res in zip(todo, results):
         if kind == "dev":
